@@ -138,8 +138,8 @@ func init() {
 			"targets contain no null (the statement excludes them)",
 			"on the receiving replica the target is compared where the patching replica had already seen all of the receiver's operations (otherwise the merge is governed by C02)",
 		},
-		Cases: func(t string) int { return tierN(t, 1200, 40000) },
-		Floor: func(t string) int { return tierN(t, 250, 8000) },
+		Cases: func(t string) int { return tierN(t, 3000, 40000) },
+		Floor: func(t string) int { return tierN(t, 600, 8000) },
 		Run:   runC19,
 	})
 }
